@@ -202,6 +202,7 @@ def replay(ctx, spec, f):
 def plan(tier, seed):
     p = Plan()
     p.stubbing = True
+    p.max_jobs = 9      # the multi-stage instances need 4-5 GB each
     import os
     here = os.path.dirname(__file__)
     p.modules.append(("yuvxyb-math/src/matrix.rs", open(os.path.join(here, "..", "harness", "math_stub.rs")).read()))
